@@ -488,7 +488,9 @@ def replay(body):
         r = native_cfg(cfg, tn)
         if r is None: return 2, 'native driver failed'
         if r['layout'] is None:
-            bad = r['rc'] == 0
+            # ':rejected' = the table has no layout for the pair, configuring must fail; any other obligation was raised for a pair the
+            # layouts[] table serves, so a native lookup that returns none reproduces it
+            bad = r['rc'] == 0 if ob.endswith(':rejected') else True
         else:
             L = r['layout']
             used = (set(x[0] for x in L['frames']) | set(x[2] for x in L['frames'])) - {tx['L1SCHED_IDLE']}
